@@ -195,7 +195,9 @@ def _audit_and_pin(prop, r, rc, thorough):
             dst = os.path.join(d, 'drv_%s.%d' % (prop.lower(), os.getpid()))
             shutil.copy2(src, dst)
             _PRIVATE_DRV[prop] = dst
-            atexit.register(lambda: os.path.exists(dst) and os.unlink(dst))
+            owner = os.getpid()
+            # (forked pool workers inherit the handler: only the process that made the copy removes it)
+            atexit.register(lambda: os.getpid() == owner and os.path.exists(dst) and os.unlink(dst))
     # theorem names.  Authoritative list: every theorem constant that Lean's environment records for the property's
     # Props module(s) - enumerated by a generated audit file, so it does not depend on parsing the source text.  The
     # `theorem <name>` declarations found in the source (comments/strings/char literals removed by a lexer) are a
